@@ -61,6 +61,11 @@ def cases(tier):
         for sf in ('CT', 1.3):
             for re in ('vlow', 'lam', 'turb'):
                 out.append(dict(base, sf=sf, re=re, wall='none'))
+        # user step request (below / above the limit) written in several length units
+        for unit in (None, 'cm', 'in'):
+            for req in (0.5, 2.5):
+                for re in ('lam', 'turb'):
+                    out.append(dict(base, unit=unit, req=req, re=re, wall='none'))
         for ca in (True,):
             for du in ('1', '2f'):
                 for re in ('vlow', 'lam'):
@@ -134,6 +139,12 @@ def cases(tier):
                             out.append(dict(base, design=d, ducts=du, wall=wall, coolant='sodium',
                                             re=re, dT=250.0, fam=list(f), tol=tol))
     if tier == 'thorough':
+        for unit in (None, 'cm', 'mm', 'in', 'ft'):
+            for req in (0.3, 0.9, 1.1, 2.5, 30.0):
+                for re in ('vlow', 'lam', 'trans', 'turb'):
+                    for wall in ('none', 'flow'):
+                        for du in ('1', '2f'):
+                            out.append(dict(base, unit=unit, req=req, re=re, wall=wall, ducts=du))
         for d in ('d2', 'd3', 'b3'):
             for sf in ('CT', 1.3, 0.7):
                 for du in ('1', '2f'):
@@ -187,6 +198,8 @@ def build(c, power):
         for spec in scn['power']['asm'].values():
             spec['q'] /= c['pscale']
         scn['power']['scaling'] = c['pscale']
+    if c.get('req_m') is not None:
+        scn['setup']['axial_mesh_size'] = float(c['req_m'])     # metres here; converted below with the rest
     if c.get('core', 1) == 7:
         a0 = scn['assign'][0]
         flow = a0[3]['flowrate']
@@ -195,6 +208,9 @@ def build(c, power):
             [['A', 2, p, {'flowrate': flow * f}] for p, f in zip(range(1, 7), (0.8, 0.35, 0.9, 0.6, 1.2, 0.5))]
         spec = scn['power']['asm']['1']
         scn['power']['asm'] = {str(i + 1): dict(spec, seed=i) for i in range(7)}
+    if c.get('unit'):
+        from . import c17
+        scn = c17.convert_scenario(scn, c['unit'], 'kelvin', 'kg/s')
     return scn
 
 
@@ -333,6 +349,17 @@ def run_case(c):
     r = new_result()
     V = r['violations']
     extra = {'limiter_selected': {}, 'limiter_own': {}, 'probes': 0}
+    if c.get('req') is not None:
+        # user step request as a multiple of the limit DASSH reports for the same input without request
+        # (written in the length unit of the input): above the limit it must be ignored, below it honoured
+        with S.Built(build(dict(c, req=None), 'zero')) as b0:
+            try:
+                lim = float(b0.reactor().req_dz)
+            except SystemExit as e:
+                r['outcome'] = 'rejected-at-setup'
+                r['info'] = {'site': site_of(e)}
+                return r
+        c = dict(c, req_m=float('%.3g' % (c['req'] * lim)))
     # temperature-dependent coolant: DASSH selects the step for the inlet..outlet range of the REAL power
     scn = build(c, c.get('power', 'asym') if c.get('coolant') else 'zero')
     with S.Built(scn) as b:
